@@ -76,8 +76,12 @@ func (x *Exec) evalCall(st *State, e *ast.CallExpr) []Val {
 			}
 			args = append(args, x.eval(st, sel.X))
 		}
-		for _, a := range e.Args {
-			args = append(args, x.eval(st, a))
+		for i, a := range e.Args {
+			v := x.eval(st, a)
+			if isNilExpr(info, a) && i < sig.Params().Len() {
+				v.G = sig.Params().At(i).Type()
+			}
+			args = append(args, v)
 		}
 		spec := x.sp.Funcs[key]
 		if spec == nil {
@@ -137,8 +141,12 @@ func (x *Exec) evalCall(st *State, e *ast.CallExpr) []Val {
 		fv := x.eval(st, e.Fun)
 		x.safety(st, e, "nil-func", not(app("=", fv.T, "0")))
 		var args []Val
-		for _, a := range e.Args {
-			args = append(args, x.eval(st, a))
+		for i, a := range e.Args {
+			v := x.eval(st, a)
+			if isNilExpr(info, a) && i < sig.Params().Len() {
+				v.G = sig.Params().At(i).Type()
+			}
+			args = append(args, v)
 		}
 		return x.applyContract(st, e, "functype "+k, fts.Clauses, fts.Params, args, sig.Results(), info.TypeOf(e))
 	}
@@ -398,6 +406,8 @@ func (x *Exec) evalBuiltin(st *State, e *ast.CallExpr, name string) []Val {
 			x.declare("mcard", "FUN ((Array Int Bool)) Int")
 			r := Val{T: app("mcard", d), S: "Int", G: t}
 			st.assume(and(app("<=", "0", r.T), app("<", r.T, two63)))
+			// a map is empty iff it has no key
+			st.assume(fmt.Sprintf("(= (= %s 0) (forall ((k Int)) (! (not (select %s k)) :pattern ((select %s k)))))", r.T, d, d))
 			return one(r)
 		case *types.Chan:
 			if name == "cap" {
